@@ -802,6 +802,17 @@ class Engine:
             return z3.ForAll(bvs, z3.Implies(rng_c, body))
         return z3.Exists(bvs, z3.And(rng_c, body))
 
+    def hint_fact(self, src, st, guard=(), where="hint"):
+        """a sidecar hint: lemma calls introduce their (proved) statements; any other formula must itself be proved
+        from the current state before it is assumed (cut rule)"""
+        tree = parse_expr(src)
+        has_lemma = any(isinstance(n, ast.Call) and isinstance(n.func, ast.Name) and n.func.id in self.registry.lemmas
+                        for n in ast.walk(tree))
+        fact = to_bool(self.evc(src, st, guard))
+        if not has_lemma:
+            self.emit("%s.%s(%s)" % (self.fn_key.split("::")[-1], where, src[:60]), "assert", st, fact, guard=guard, note=src)
+        return fact
+
     def lemma_call(self, lm, node, st, guard):
         """lemma instantiation (Dafny-style lemma call): its hypotheses become obligations here, its statement a fact"""
         args = [self.ev(a, st, guard) for a in node.args]
@@ -897,7 +908,7 @@ class Engine:
             hst.heap, hst.pc = st.heap, st.pc
             if res is not None:
                 hst.env["call_result"] = res
-            st.pc.append(to_bool(self.evc(hsrc, hst, guard)))
+            st.pc.append(self.hint_fact(hsrc, hst, guard, where="call_hint.%s" % callee.name))
         return res if res is not None else PyObj("none")
 
     # ---- statements -------------------------------------------------------------------------------------------------
@@ -1248,7 +1259,7 @@ class Engine:
         c = cond(it)
         it.pc.append(c)
         for hk, hsrc in enumerate((self.contract.hints or {}).get(k, [])):
-            it.pc.append(to_bool(self.evc(hsrc, it)))
+            it.pc.append(self.hint_fact(hsrc, it, where="loop%d.hint" % k))
         var0 = None
         if spec.get("variant"):
             var0 = to_z3(self.evc(spec["variant"], it))
@@ -1273,7 +1284,7 @@ class Engine:
         for hsrc in (getattr(self.contract, "exit_hints", None) or {}).get(k, []):
             for kind, s2, val in out:
                 if kind == "normal":
-                    s2.pc.append(to_bool(self.evc(hsrc, s2)))
+                    s2.pc.append(self.hint_fact(hsrc, s2, where="loop%d.exit_hint" % k))
         # cut-point assertions right after the loop (proved on every normal exit, then assumed)
         for aname, asrc in (self.contract.after_loop or {}).get(k, {}).items():
             for kind, s2, val in out:
@@ -1557,7 +1568,7 @@ class Engine:
             else:
                 st.env[gv] = v
         for hsrc in getattr(c, "entry_hints", None) or []:
-            st.pc.append(to_bool(self.evc(hsrc, st)))
+            st.pc.append(self.hint_fact(hsrc, st, where="entry_hint"))
         entry = State(dict(st.env), dict(st.heap), list(st.pc), None)
         st.old = entry
         body = self.fndef.body
